@@ -28,6 +28,7 @@ func main() {
 	budget := flag.Duration("budget", 0, "stop replaying after this long")
 	quiesce := flag.Bool("quiesce", false, "after each behaviour deliver all commits to all nodes and compare them")
 	only := flag.Int("only", -1, "replay only this behaviour index")
+	deep := flag.String("deep", "", "deep-history scenarios a:b,a:b (numbers of updates on two nodes) run before the behaviours")
 	subEvery := flag.Int("sub", 0, "every k-th behaviour runs with a slow GraphQL subscriber on every node")
 	flag.Parse()
 	split := func(s string) []string {
@@ -61,6 +62,12 @@ func main() {
 	if err != nil {
 		fmt.Fprintln(os.Stderr, "driver:", err)
 		os.Exit(2)
+	}
+	for i, ab := range split(*deep) {
+		var a, b int
+		if _, err := fmt.Sscanf(ab, "%d:%d", &a, &b); err == nil {
+			d.DeepScenario(100000+i, a, b)
+		}
 	}
 	start := time.Now()
 	done := 0
